@@ -32,6 +32,32 @@ CHECKS = {
          "strict/non-strict positionals return only right/left tokens, StrictPos final, NonStrictPos catchable (regenerated "
          "table); `--name --` is NoArgument." + DIFF,
          "4/C09", "Rocq proof (tokenizer law + ledger corollary) over a hand-written model + differential correspondence + opacity oracle"),
+ "C06": ("proof", "Theorems in coq/Props/C06.v for the evaluator of ANY inner parser: the catchable messages are exactly six (table "
+         "regenerated from src/error.rs); conversion/parse/guard failures are final and carry the text; optional, many, some, "
+         "count, last, fallback(_with) pass a final error on unchanged at any iteration; guard/parse/map/hide and construct! "
+         "never turn an error into a value; absence is catchable. C06_message_text (stderr carries the text at top level) is "
+         "partial: decided by the oracle (every typed occurrence replaced by invalid text; invalid environment values)." + DIFF,
+         "4/C06", "Rocq proof (catch table + per-wrapper propagation laws) over a hand-written model + differential correspondence + invalid-value oracle"),
+ "C07": ("proof", "Theorems in coq/Props/C07.v: the full decision rule of or_else (deeper path wins; only success wins; both "
+         "succeed: leftmost differing consumed item decides, ties to the first listed; loser's items become live conflicts), "
+         "the value is one fork's value, and C07_exclusive: for ANY two parsers a, b, a line holding an item only a's "
+         "consumers accept and one only b's accept cannot yield a value (from the success-only ledger theorem OkReach). "
+         "C07_many_order is partial: decided by the oracle (collected values vs command-line order)." + DIFF,
+         "4/C07", "Rocq proof (pick rule + exclusivity from the ledger) over a hand-written model + differential correspondence + choice oracle"),
+ "C08": ("proof", "Theorems in coq/Props/C08.v: take_cmd succeeds iff the first live item of the scope is the name (exact "
+         "characterisation), the inner OptionParser then runs on [name..end) with the path extended and its value/failure is "
+         "the command's, leftovers in the window fail it, an item no consumer of the tree accepts fails the run, inner "
+         "help/version is rendered with the inner info/meta/path and is final outward, deeper alternative wins. Full tree "
+         "conformance is partial: decided by the oracle (misplaced inner options, unknown names, help after each name, "
+         "parent options right of the name) and the differential run." + DIFF,
+         "4/C08", "Rocq proof (take_cmd law, scope/ledger corollaries) over a hand-written model + differential correspondence + misplacement oracle"),
+ "C10": ("proof", "Theorems in coq/Props/C10.v: C10_never_value -- for EVERY parser, a live item none of the parser's own consumers "
+         "accepts (a help/version flag whose names no item uses) makes run_subparser/run_inner unable to yield a value (the "
+         "help lookups are not consumers: OkReach shows a successful evaluation never keeps what they took); C10_help_found -- "
+         "when the help flag is live in the scope the failed parser left behind the outcome is this level's help. The "
+         "unrestricted 'whatever else fails' statement is proved FALSE (C10_refuted_seq) and recorded as two known-finding "
+         "classes; valid lines are checked strictly by the oracle (request at every piece boundary, innermost level marker)." + DIFF,
+         "4/C10", "Rocq proof (never-a-value from the ledger, help lookup lemma, refutation witness) over a hand-written model + differential correspondence + help-position oracle"),
 }
 
 NA_REASON = "check not built yet in this revision (machinery under construction; see DESIGN.md section 7 staging)"
